@@ -128,9 +128,9 @@ def check(ctx, rep):
     rep.rule("R06a", "one directory walk shared by all protocols; every entry rendered and written once, unconditionally", floor=8)
     rep.rule("R06b", "selectors reaching handler selection are slash-normalised; slashnormalize() yields a leading '/'", floor=5)
     rep.rule("R06c", "request text is decoded as UTF-8/surrogateescape everywhere (percent-decoding, query strings, request bodies)", floor=6)
-    rep.rule("R06e", "URL-based renderers: relative link exactly when the entry names neither host nor port; otherwise entry.geturl()", floor=3)
+    rep.rule("R06e", "URL-based renderers: relative link exactly when the entry names neither host nor port; otherwise entry.geturl()", floor=1)
     rep.rule("R06f", "unset fields are completed alike by the Gopher menu line and gopher:// URLs (own host/port; other host -> port 70; no type -> 0)", floor=4)
-    rep.rule("R06g", "= R04d: every protocol advertises adjust(entry.getmimetype()) for a selector (one MIME type per selector across protocols)", floor=3)
+    rep.rule("R06g", "= R04d: every protocol advertises adjust(entry.getmimetype()) for a selector (one MIME type per selector across protocols)", floor=1)
     rep.rule("R06h", "every URL-based protocol renders, for the same local entry, a link target that percent-decodes to the entry's selector (below the protocol's own prefix)", floor=1)
     rep.rule("R06i", "= R15g: handlers build the entry list without looking at the protocol that asks", floor=1)
     rep.rule("R06d", "menu MIME type mapped to the protocol's listing type; adjust function total", floor=4)
